@@ -219,6 +219,42 @@ func TestC16(t *testing.T) {
 	}})
 }
 
+// preemption scenarios: small full nodes, guarantees, fences, priorities, old starving asks
+func preemptionProfile() *harness.Profile {
+	p := mixedProfile()
+	p.Name = "preemption"
+	p.Conf = harness.ConfOpts{MaxDepth: 2, Quotas: true, Preemption: true, QuotaPreempt: true, FifoOnly: true, WideTrees: true, FewPrioProps: true}
+	p.Weights = harness.With(harness.BaseWeights(), map[string]int{harness.OpAddAsk: 22, harness.OpReportBound: 10, harness.OpAddApp: 8, harness.OpSchedule: 30, harness.OpConfirm: 6, harness.OpRelease: 3,
+		harness.OpQuotaPre: 4, harness.OpReload: 3, harness.OpUpdNode: 1, harness.OpForeign: 1, harness.OpDecomNode: 1, harness.OpRemoveApp: 1})
+	p.NodeLo, p.NodeHi, p.AskLo, p.AskHi = 6, 14, 1, 5
+	p.GangProb, p.ReqNodeProb, p.PreemptProb, p.OldAskProb, p.BoundReqNodeProb = 10, 10, 70, 75, 12
+	p.Reloads = true
+	p.Epilogue = true
+	p.MinSteps, p.MaxSteps = 20, 80
+	return p
+}
+
+func preemptionPrologue(t *rapid.T, w *harness.World, p *harness.Profile) {
+	initial := w.Conf
+	w.ReloadGen = func(t *rapid.T, w *harness.World) string {
+		return harness.MarshalConf(harness.MutateConf(t, w.Conf, initial))
+	}
+	// the situation preemption is about: applications in several leaf queues, nodes filled by running allocations
+	harness.FillNodes(t, w, p)
+}
+
+func TestC07(t *testing.T) {
+	runWorld(t, worldCheck{prop: "C07", check: "C07/world", profile: preemptionProfile, prologue: preemptionPrologue, nonTriv: func(w *harness.World) bool {
+		return w.Tags["preemption-step"] > 0 && w.Tags["c07-pool-has-ineligible"] > 0
+	}})
+}
+
+func TestC08(t *testing.T) {
+	runWorld(t, worldCheck{prop: "C08", check: "C08/world", profile: preemptionProfile, prologue: preemptionPrologue, nonTriv: func(w *harness.World) bool {
+		return w.Tags["c08-preemption-with-2-guaranteed-queues"]+w.Tags["c08-quota-preemption"] > 0
+	}})
+}
+
 func TestC09(t *testing.T) {
 	runWorld(t, worldCheck{prop: "C09", check: "C09/world", profile: reserveProfile, nonTriv: func(w *harness.World) bool {
 		removedOther := 0
